@@ -137,3 +137,29 @@ func ZZTextManyLines() {
 	rs, ok := DecodeText(cl.Out)
 	rt.Assert("c11-last-command-still-answered", ok && len(rs) > 0 && len(rs[len(rs)-1].Line) > 7 && rs[len(rs)-1].Line[:7] == "VERSION")
 }
+
+// ZZBinaryTruncated (C11): a well-formed binary request (or quiet-get batch) whose stream ends
+// -- the client goes away -- at an arbitrary byte offset: the loop ends, the connection is
+// closed once, nothing crashes, nothing is read again and again, and no pooled object is
+// returned to its pool twice on the way out (the engine reports that as a structural breach).
+func ZZBinaryTruncated() {
+	kinds := []int{kSet, kGetQNoop, kGetQ2Noop, kGetQGet, kGet, kGetEQNoop, kGat, kDelete, kTouch, kAppend}
+	a := binIntent("a.", kinds[rt.Choice("kind", len(kinds))], 2, 2)
+	cut := rt.Choice("cut", len(a.Bytes))
+	cl := &Client{In: a.Bytes[:cut], EOF: true}
+	h1 := model.NewHandler(&model.Store{}, 1700000000)
+	rec := &model.Rec{}
+	closers := []*Closer{{}, {}}
+	rd := bufio.NewReader(cl)
+	s := server.Default([]io.Closer{cl, closers[0], closers[1]}, binprot.NewBinaryParser(rd), orcas.L1Only(h1, nil, rec))
+	s.Loop()
+	rt.Reach("loop-returned")
+	rt.Assert("c11-connection-closed-once", cl.Closed == 1 && closers[0].N == 1 && closers[1].N == 1)
+	rt.Assert("c11-truncated-request-not-executed", len(h1.Log) == 0)
+	// afterwards the parser serves other connections normally
+	b := binIntent("b.", kSet, 1, 1)
+	cl2 := &Client{In: b.Bytes, EOF: true}
+	ps := binprot.NewBinaryParser(bufio.NewReader(cl2))
+	r2, t2, _, e2 := ps.Parse()
+	checkDecoded("c11-next-connection", b, r2, t2, e2, false)
+}
